@@ -71,14 +71,32 @@ CHECKS = {
  'C16': tv('The C02/C07/C08/C14 corpora and a third of the C06 matrix are rebuilt with -m and the minified linked file is executed symbolically against the same references; plus minify-specific templates '
            '(identifier exhaustion, shadowing, local types in closures, awkward string literals, adjacent unary/binary minus).', 'DESIGN.md §4 C16'),
 }
+K_NOTE = ('trusted: go/packages + go/ssa (x/tools v0.29.0), z3 5.1, the interpreter fork in engine/gosym (constructs it cannot follow end a path as "unsupported", which makes the harness incomplete, never passed), '
+          'the harness code in harness/<id>/*.go (the reference is written inside the harness as plain Go) and the listed stubs. Violations are replayed natively (go test -overlay) before they are reported.')
+K_TECH = 'symbolic execution of the go/ssa form of the real functions (engine/gosym: interpreter with symbolic scalars; every branch, concretisation and assertion decided by z3 over bit-vectors); models replayed natively against the real package'
+
+
+def kern(text, ref, **kw):
+    d = dict(category='other', text=text, design_ref=ref, note=K_NOTE, technique=K_TECH, engine='gosym')
+    d.update(kw)
+    return d
+
+
+KERNELS = {
+ 'C19': kern('internal/sourcemapx (Filter.Write, FindHint, ReadHint, Hint.WriteTo) executed symbolically from the current source: one Write call from an ARBITRARY filter state (symbolic line/column) on every chunk of <= 2 hints / <= 2 code bytes per segment / '
+             '<= 2 payload bytes (quick: two smaller shapes) must produce exactly what a plain rescan of the chunk from that state produces: output = input minus hints, no magic byte in the output, one callback per hint at the output position of the '
+             'first byte after it and with that hint\'s payload, n = bytes consumed, line/column afterwards. Rescanning is compositional, so the step covers all streams and chunkings (that do not split a hint) built from such chunks; explicit '
+             'chunkings of small streams and the ReadHint/WriteTo round trip for all payloads are checked as well. Hint.Unpack (gob) and FileSet.Position are stubbed.', 'DESIGN.md §4 C19'),
+}
 NA_DEFAULT = 'check not built yet in this session (work in progress; see DESIGN.md §8)'
 NA = {}
+KERNEL_ALSO = []       # properties whose check combines the jsx corpus with gosym kernels
 
 def main():
     checks = []
     for pid in ALL:
-        if pid in CHECKS:
-            c = CHECKS[pid]
+        if pid in CHECKS or pid in KERNELS:
+            c = CHECKS.get(pid) or KERNELS[pid]
             checks.append({
                 'property_id': pid,
                 'quick_cmd': './check %s --tier quick' % pid,
@@ -98,9 +116,11 @@ def main():
         'engines': [
             {'name': 'jsx', 'path': 'engine/jsx', 'serves_properties': sorted(CHECKS.keys()),
              'kind_free_text': 'source-instrumenting symbolic executor for the JavaScript emitted by the real compiler (prelude included); z3 decides branch feasibility and equivalence queries'},
+            {'name': 'gosym', 'path': 'engine/gosym', 'serves_properties': sorted(set(KERNELS.keys()) | set(KERNEL_ALSO)),
+             'kind_free_text': 'symbolic interpreter for go/ssa (fork of x/tools go/ssa/interp with symbolic scalars, symbolic strings, solver-decided branches and concretisation, lenient package initialisation); runs in-package harnesses injected by overlay'},
         ],
         'checks': checks,
-        'not_applicable': [{'property_id': p, 'reason': NA.get(p, NA_DEFAULT)} for p in ALL if p not in CHECKS],
+        'not_applicable': [{'property_id': p, 'reason': NA.get(p, NA_DEFAULT)} for p in ALL if p not in CHECKS and p not in KERNELS],
         'notes': 'Solver-based checking: see DESIGN.md. Known findings are listed in known_findings.jsonl.',
     }
     with open(os.path.join(HERE, 'MANIFEST.json'), 'w') as f:
